@@ -146,7 +146,8 @@ Inductive hop :=
 | HSeek (off : Z) (whence : nat)
 | HReadAll
 | HRead (n : nat)
-| HSize.
+| HSize
+| HFlush.
 
 Inductive hout :=
 | OBool (b : bool)
@@ -160,6 +161,7 @@ Definition buf_step (b : buf) (o : hop) : buf * hout :=
   | HReadAll => let (b', d) := buf_read_all b in (b', OData true d)
   | HRead n => let (b', d) := buf_read b n in (b', OData true d)
   | HSize => (b, OInt (buf_size b))
+  | HFlush => (b, OBool true)                    (* flushing changes no byte and no cursor *)
   end.
 
 Fixpoint buf_run (b : buf) (os : list hop) : buf * list hout :=
@@ -176,6 +178,7 @@ Definition abuf_step (rd wr : bool) (b : buf) (o : hop) : buf * hout :=
   | HRead n => if rd then let (b', d) := buf_read b n in (b', OData true d) else (b, OData false [])
   | HSeek off wh => let (b', z) := buf_seek b off wh in (b', OInt z)
   | HSize => (b, OInt (buf_size b))
+  | HFlush => (b, OBool true)
   end.
 
 Fixpoint abuf_run (rd wr : bool) (b : buf) (os : list hop) : buf * list hout :=
@@ -183,3 +186,28 @@ Fixpoint abuf_run (rd wr : bool) (b : buf) (os : list hop) : buf * list hout :=
   | [] => (b, [])
   | o :: t => let (b1, x) := abuf_step rd wr b o in let (b2, xs) := abuf_run rd wr b1 t in (b2, x :: xs)
   end.
+
+(* ---- purge: a directory is removed together with the ancestors that this leaves empty -------------
+   `rnames` are the names leading from `base` to the innermost ancestor, innermost first.  Going up,
+   every ancestor that is an empty directory is removed; the first one that is not stops the climb.
+   `base` itself (the directory the path text starts from) is never touched. *)
+Fixpoint prune_up (r : node) (base : cpath) (rnames : list str) : node :=
+  match rnames with
+  | [] => r
+  | _ :: up =>
+      let p := base ++ rev rnames in
+      match get r p with
+      | Some (NDir []) => prune_up (upd r p None) base up
+      | _ => r
+      end
+  end.
+
+(* ---- wildcard patterns (fnmatch without flags, patterns of literal bytes, '*' and '?') ------------
+   A pattern matches a name when the name can be cut into pieces, one per pattern byte: '?' takes
+   exactly one byte, '*' any number (also none, also a leading '.'), any other byte itself. *)
+Inductive matches : str -> str -> Prop :=
+| m_nil : matches [] []
+| m_star_none p s : matches p s -> matches (42 :: p) s
+| m_star_more p x s : matches (42 :: p) s -> matches (42 :: p) (x :: s)
+| m_any p x s : matches p s -> matches (63 :: p) (x :: s)
+| m_lit c p s : c <> 42 -> c <> 63 -> matches p s -> matches (c :: p) (c :: s).
